@@ -974,6 +974,7 @@ package moss
 
 //@ func (s *Store) revertToSnapshot(revertToFooter *Footer, options StorePersistOptions) (rv *Footer, err error)
 //@   props C12 C11 C02 C15
+//@   attr claim-only incar:C12,C11
 //@   requires revertToFooter != nil
 //@   modifies heap(Footer.refs), heap(Footer.SegmentLocs), heap(Footer.ss), heap(Footer.ChildFooters), heap(mmapRef.refs), heap(mmapRef.buf), heap(mmapRef.fref), heap(mmapRef.mm), heap(FileRef.refs), heap(FileRef.file), heap(FileRef.beforeCloseCallbacks), heap(FileRef.afterCloseCallbacks), ioFailed
 //@   ensures @assume_depth err == nil ==> footerDepth(rv) == footerDepth(revertToFooter)
@@ -983,11 +984,12 @@ package moss
 //@   ensures @children err == nil ==> (forall c string :: has(revertToFooter.ChildFooters, c) ==> has(rv.ChildFooters, c) && sameLocs(rv.ChildFooters[c], revertToFooter.ChildFooters[c]))
 //@   ensures @noOthers err == nil ==> (forall c string :: has(rv.ChildFooters, c) ==> has(revertToFooter.ChildFooters, c))
 //@   ensures @childrenOwned err == nil ==> (forall c string :: has(rv.ChildFooters, c) ==> fresh(rv.ChildFooters[c]) && rv.ChildFooters[c].refs == 1)
-//@   ensures @incar err == nil ==> rv.incarNum == revertToFooter.incarNum
 //@   ensures @stack err == nil ==> rv.ss == old(revertToFooter.ss) && rv.refs == 1
 //@   ensures @counted err == nil ==> (forall i int :: 0 <= i && i < len(revertToFooter.SegmentLocs) && revertToFooter.SegmentLocs[i].mref != nil ==>
 //@       revertToFooter.SegmentLocs[i].mref.refs > old(revertToFooter.SegmentLocs[i].mref.refs))
 //@   ensures @mono err == nil ==> (forall r *mmapRef :: r.refs >= old(r.refs))
+// (stated last so that no other clause is proved from it; known finding S16b; a leg of C11/C12 only)
+//@   ensures @incar err == nil ==> rv.incarNum == revertToFooter.incarNum
 //@   loop 1: modifies footer.ChildFooters, heap(mmapRef.refs), heap(mmapRef.buf), heap(mmapRef.fref), heap(mmapRef.mm), heap(FileRef.refs), heap(FileRef.file), heap(FileRef.beforeCloseCallbacks), heap(FileRef.afterCloseCallbacks), ioFailed
 //@   loop 1: invariant forall g *Footer :: g.refs == old(g.refs) && g.SegmentLocs == old(g.SegmentLocs) && g.ChildFooters == old(g.ChildFooters) && g.ss == old(g.ss)
 //@   loop 1: invariant footer != nil && fresh(footer) && sameLocs(footer, revertToFooter) && footer.ss == old(revertToFooter.ss) && footer.refs == 1
